@@ -495,12 +495,25 @@ def step (H : Hashes) (dirLen : Nat) (s : State) : Op → State × Resp
                 let (s2, ok) := s.commitFile dbd dp c
                 if !ok then (s2, .err .InternalError)
                 else
+                  -- aa68bb7 `copy_side_file`, for the metadata file and then for the internal-info file: the source's file is
+                  -- copied over the destination's; when the source has none, the destination's is removed (`exists()` is
+                  -- false for a name the OS refuses)
                   let srcMeta := if sideTooLong sb sk false then none else alLookup (sb, sk) s2.metas
-                  match srcMeta with
-                  | none => (s2, .copied (some (etagOf H c)))
-                  | some m =>
-                    if sideTooLong db dk false then (s2, .err .InternalError)
-                    else ({ s2 with metas := alInsert (db, dk) m s2.metas }, .copied (some (etagOf H c)))
+                  let r3 : Option State := match srcMeta with
+                    | none => some (if sideTooLong db dk false then s2 else { s2 with metas := alErase (db, dk) s2.metas })
+                    | some m =>
+                      if sideTooLong db dk false then none else some { s2 with metas := alInsert (db, dk) m s2.metas }
+                  match r3 with
+                  | none => (s2, .err .InternalError)
+                  | some s3 =>
+                    let srcInfo := if sideTooLong sb sk false then none else alLookup (sb, sk) s3.infos
+                    match srcInfo with
+                    | none =>
+                      (if sideTooLong db dk false then s3 else { s3 with infos := alErase (db, dk) s3.infos },
+                        .copied (some (etagOf H c)))
+                    | some x =>
+                      if sideTooLong db dk false then (s3, .err .InternalError)
+                      else ({ s3 with infos := alInsert (db, dk) x s3.infos }, .copied (some (etagOf H c)))
   | .listObjectsV2 b pfx delim startAfter _maxKeys =>
     match bucketDir b with
     | none => (s, .err .InvalidBucketName)
